@@ -493,6 +493,17 @@ var RuleEdits = []string{
 	"=AddUnrelatedDefinition", "=RequiredViaAdditionalTrue", "=RequiredViaAdditionalSchema", "=MixedSegmentSiblings", "=MoveParamToPathLevel", "=SameParamNameOtherLocation", "=EmptyOperationIds",
 }
 
+// appendOnce keeps a list free of duplicates (an edit applied twice must stay rule-preserving: the Swagger schema wants
+// unique required names)
+func appendOnce(l []string, x string) []string {
+	for _, y := range l {
+		if y == x {
+			return l
+		}
+	}
+	return append(l, x)
+}
+
 // ApplyRuleEdit applies one edit; ok = false when it does not apply to this document.
 func ApplyRuleEdit(d *ADoc, e string, r *rand.Rand) (ok bool) {
 	if len(d.Paths) == 0 || len(d.Paths[0].Ops) == 0 || len(d.Defs) == 0 {
@@ -631,20 +642,20 @@ func ApplyRuleEdit(d *ADoc, e string, r *rand.Rand) (ok bool) {
 		if df.AddProps == "true" {
 			return false
 		}
-		df.Required = append(df.Required, "nowhere")
+		df.Required = appendOnce(df.Required, "nowhere")
 	case "!RequiredVsAdditionalFalse":
 		if !plain {
 			return false
 		}
 		df.AddProps = "false"
-		df.Required = append(df.Required, "nowhere")
+		df.Required = appendOnce(df.Required, "nowhere")
 	case "!RequiredNotInAdditionalSchema":
 		if !plain {
 			return false
 		}
 		df.AddProps = "schema"
 		df.AddSchema = []string{"extra"}
-		df.Required = append(df.Required, "nowhere")
+		df.Required = appendOnce(df.Required, "nowhere")
 	case "!DanglingRef":
 		d.ExtraRefs = append(d.ExtraRefs, "Ghost")
 	case "!DupInheritedProperty":
@@ -690,14 +701,14 @@ func ApplyRuleEdit(d *ADoc, e string, r *rand.Rand) (ok bool) {
 			return false
 		}
 		df.AddProps = "true"
-		df.Required = append(df.Required, "whatever")
+		df.Required = appendOnce(df.Required, "whatever")
 	case "=RequiredViaAdditionalSchema":
 		if !plain {
 			return false
 		}
 		df.AddProps = "schema"
 		df.AddSchema = []string{"extra", "more"}
-		df.Required = append(df.Required, "more")
+		df.Required = appendOnce(df.Required, "more")
 	case "=MixedSegmentSiblings":
 		mk := func(t, id string) APath {
 			return APath{Template: t, Ops: []AOp{{Method: "get", ID: id, Params: []AParam{{Name: "doc", Loc: "path", Required: true, Type: "string"}}, Resps: []AResp{{Code: "200"}}}}}
